@@ -507,6 +507,9 @@ pixman_composite_trapezoids (pixman_op_t		op,
 	(mask_format == dst->common.extended_format_code)	&&
 	!(dst->common.alpha_map)				&&
 	(dst->bits.dither == PIXMAN_DITHER_NONE)		&&
+	!(src->common.have_clip_region				&&
+	  src->common.clip_sources				&&
+	  src->common.client_clip)				&&
 	!(dst->common.have_clip_region))
     {
 	for (i = 0; i < n_traps; ++i)
